@@ -193,4 +193,24 @@ theorem every_plain_command_gets_its_task :
     Coop.everyNormalEndDid (fun a => a.kind == .call && a.name == "asyncio.create_task") Skeletons.sk_async_tasks__AsyncTasks_add_task = true ∧
     Coop.actions .brT Skeletons.sk_async_tasks__AsyncTasks_add_task = [] := by decide +kernel
 
+/-! ### finding D17, in the model: a write merged with a stale copy undoes the write before it -/
+
+namespace D17
+def udP1 : Item := ⟨"UdP1", "UdP1", 275, .enum, 2, (some 14), 3, ["OFF", "LO", "HI"], true, (some 4), (some "ALL")⟩
+def udP2 : Item := ⟨"UdP2", "UdP2", 275, .enum, 2, (some 12), 3, ["OFF", "LO", "HI"], true, (some 4), (some "ALL")⟩
+
+/-- the shipped inXM layout of the first two pump demands (two 2-bit fields of word 275): both commands are computed from the SAME
+copy of the block - the client's mirror, which changes only when the spa's report arrives; applied one after the other at the spa,
+the second command carries the first item's old bits and undoes the first (`C13` known finding
+`pending-report:lost-update-in-shared-word`, reproduced on the real stack by `c13.pending_report_scenarios`). When the report of the
+first write is applied to the mirror before the second command is computed, both hold (`mirror_in_sync` covers that order). -/
+theorem stale_merge_undoes_the_first_write :
+    (do let w1 ← (udP1.encodeAsync (List.replicate 1024 0) (.str "LO")).toOption
+        let w2 ← (udP2.encodeAsync (List.replicate 1024 0) (.str "HI")).toOption
+        let b1 ← applyWrite (List.replicate 1024 0) w1
+        let b2 ← applyWrite b1 w2
+        pure ((udP1.decode b1).toOption, (udP1.decode b2).toOption, (udP2.decode b2).toOption)) =
+    some (some (.str "LO"), some (.str "OFF"), some (.str "HI")) := by decide +kernel
+end D17
+
 end GeckoModel.C13
